@@ -40,6 +40,25 @@ def gen(rng, tier, spec):
         sched = [(0, 0)] * 5 + [(1, 0)] * rng.range(21, 26) + [(0, 0)] * rng.range(0, 4)
         sched += R.sched_random(rng, len(progs), rng.range(0, 10), ((14, 0), (2, 1), (2, 2)))
         return {'cfg': [0], 'progs': progs, 'sched': sched}
+    if rng.below(12) == 0:
+        # boundary-aimed: the time-out (choice 2) of a sleeping timed waiter fires exactly while the setter owns the
+        # matching mutex, between its lock and its flag store / between the store and the notify; the waiter then
+        # re-acquires the mutex after the flag was set and must re-evaluate the predicate (returns true)
+        if rng.chance(1, 2):
+            progs = [[[WAITFOR]] + _role_prog(rng, 'waiter', rng.range(0, 1)),
+                     [[TRIGGER]] + _role_prog(rng, 'driver', rng.range(0, 1))]
+            cfg, ksleep, khold = [1], 6, rng.range(3, 4)
+        else:
+            progs = [[[WAITFORACT]] + _role_prog(rng, 'actwaiter', rng.range(0, 1)),
+                     [[ACTIVATE]] + _role_prog(rng, 'driver', rng.range(0, 1))]
+            cfg, ksleep, khold = [0], 5, rng.range(6, 7)
+        if rng.chance(1, 3):
+            progs.append(_role_prog(rng, 'any', rng.range(1, 2)))
+        sched = [(0, 0)] * ksleep + [(1, 0)] * khold + [(0, 2)]
+        if rng.chance(1, 2):
+            sched += [(1, 0)] * rng.range(1, 4) + [(0, 0)] * rng.range(0, 4)
+        sched += R.sched_random(rng, len(progs), rng.range(0, 20), ((14, 0), (2, 1), (2, 2)))
+        return {'cfg': cfg, 'progs': progs, 'sched': sched}
     nt = rng.weighted([(1, 1), (5, 2), (6, 3), (3, 4)])
     shape = rng.below(10)
     progs = []
